@@ -29,12 +29,14 @@ def c03(e2e):
     for k in (1, 2, 3):
         runs.append({"harness": "vxH03Respond", "args": [str(k)], "files": F, "reach": ["done"], "bounds": f"{k} answers (any mix of Rstat/Rerror/Rclunk) to a request with arbitrary status bits"})
     for (n, maxpend, outcome, oneseg, P) in e2e:
-        runs.append({"harness": "vxH03E2E", "args": [str(n), str(maxpend), str(outcome), oneseg], "files": F, "preempt": P, "race": True, "reach": ["done"], "timeout_s": 1500,
-                     "bounds": f"{n} concurrent Tread/Twrite with distinct symbolic tags and offsets after Tversion/Tattach/Topen, Maxpend={maxpend}, implementation outcome={outcome} (0 ok, 1 error, 3 answers twice), one segment={oneseg}; every completion order; <= {P} preemptions"})
+        # two goroutines of the implementation answering at once necessarily write the reply buffer concurrently:
+        # that workload is outside C19, so the race detector is off for it
+        runs.append({"harness": "vxH03E2E", "args": [str(n), str(maxpend), str(outcome), oneseg], "files": F, "preempt": P, "race": outcome != 5, "reach": ["done"], "timeout_s": 1500,
+                     "bounds": f"{n} concurrent Tread/Twrite with distinct symbolic tags and offsets after Tversion/Tattach/Topen, Maxpend={maxpend}, implementation outcome={outcome} (0 ok, 1 error, 3 answers twice, 5 answers twice from two goroutines at once), one segment={oneseg}; every completion order; <= {P} preemptions"})
     return runs
 w("C03", {
- "quick": c03([(2, 0, 0, "true", 1), (2, 1, 3, "false", 1), (2, 0, 1, "true", 0)]),
- "thorough": c03([(2, 0, 0, "true", 2), (2, 1, 3, "false", 2), (2, 4, 1, "true", 2), (3, 0, 0, "true", 1), (3, 1, 3, "true", 1)]),
+ "quick": c03([(2, 0, 0, "true", 1), (2, 1, 3, "false", 1), (2, 0, 1, "true", 0), (1, 0, 5, "true", 2)]),
+ "thorough": c03([(2, 0, 0, "true", 2), (2, 1, 3, "false", 2), (2, 4, 1, "true", 2), (3, 0, 0, "true", 1), (3, 1, 3, "true", 1), (1, 0, 5, "true", 3), (2, 1, 5, "true", 1)]),
  "outside": ["more than 3 outstanding requests, more than 2 preemptions", "real TCP", "Tversion with a tag other than NOTAG (protocol precondition)"],
  "assumptions": [SCHED, "reply content oracle: independent encoder harness/ref_wire.go"]})
 
@@ -64,9 +66,12 @@ def c11(combos, P):
         runs.append({"harness": "vxH11", "args": [str(nf), str(w), str(k0), str(k1), str(mp), "true" if mid else "false"], "files": F, "preempt": P, "race": True, "reach": ["done"], "timeout_s": 1500,
                      "bounds": f"victim with {['fid 0 attached','+ fid 1 walked','+ fid 1 open'][nf]}; {w} requests held in the implementation at the disconnect ({kn[k0]}{', '+kn[k1] if w==2 else ''}), released afterwards in every order; Maxpend={mp}; mid-frame={mid}; bystander connection; <= {P} preemptions"})
     return runs
-w("C11", {"quick": c11([(0,0,0,0,0,False), (2,1,0,0,0,False), (2,1,1,0,0,True), (1,1,2,0,1,False), (1,2,2,1,0,False)], 1),
- "thorough": c11([(nf,w_,k0,k1,mp,mid) for nf in (0,1,2) for (w_,k0,k1) in ((0,0,0),(1,0,0),(1,1,0),(1,2,0),(2,0,1),(2,2,1)) for mp in (0,1) for mid in (False,True) if not (nf == 0 and k0 == 1)], 1),
- "outside": ["more than 2 requests executing at the disconnect, more than 1 preemption", "write errors as the cause of the disconnect"],
+def c11wf(P):
+    return [{"harness": "vxH11WriteFail", "args": [str(mp), str(sec)], "files": KIT + ["c11"], "preempt": P, "race": True, "reach": ["done"],
+             "bounds": f"the peer stops reading: the Write of a reply blocks, {['a Tversion','a Tstat'][sec]} arrives meanwhile, then the Write fails; Maxpend={mp}; <= {P} preemptions"} for mp in (0, 1) for sec in (0, 1)]
+w("C11", {"quick": c11wf(1) + c11([(0,0,0,0,0,False), (2,1,0,0,0,False), (2,1,1,0,0,True), (1,1,2,0,1,False), (1,2,2,1,0,False)], 1),
+ "thorough": c11wf(2) + c11([(nf,w_,k0,k1,mp,mid) for nf in (0,1,2) for (w_,k0,k1) in ((0,0,0),(1,0,0),(1,1,0),(1,2,0),(2,0,1),(2,2,1)) for mp in (0,1) for mid in (False,True) if not (nf == 0 and k0 == 1)], 1),
+ "outside": ["more than 2 requests executing at the disconnect, more than 1 preemption", "write errors other than one stalled-then-failing Write"],
  "assumptions": [SCHED]})
 
 # ---------------- C06 ----------------
